@@ -372,6 +372,41 @@ def apiWrite (d : Docs) (kind : Kind) (f : Fmt) (g : G) (overwrite validate : Bo
   guard d kind f overwrite
   writeArrays d kind f g false validate
 
+/-! ## the trace split into phases -/
+
+def isOk {α} : Except Outcome α → Bool
+  | .ok _ => true
+  | .error _ => false
+
+/-- the trace of `write_arrays` split into its phases: `D` guard (deletion of the old geff), `W` the
+arrays, `C` the metadata write (commit), `X` the clean-up after a failed validation -/
+structure Phases where
+  D : List Op
+  W : List Op
+  C : List Op
+  X : List Op
+  committed : Bool
+
+def phases (d : Docs) (kind : Kind) (f : Fmt) (g : G) (ow va : Bool) (kv₀ : KV) : Phases :=
+  let rD := guard d kind f ow kv₀
+  let s1 := run kv₀ rD.ops
+  let rW := writeData d kind f g s1
+  let s2 := run s1 rW.ops
+  let rC := metadataWrite d g.geff s2
+  let s3 := run s2 rC.ops
+  if !isOk rD.val then ⟨rD.ops, [], [], [], false⟩
+  else if !isOk rW.val then ⟨rD.ops, rW.ops, [], [], false⟩
+  else ⟨rD.ops, rW.ops, rC.ops, (validateAndCleanup d kind f g va s3).ops, true⟩
+
+
+/-- `geff.write` / converters: the outer guard, then the phases of the nested `write_arrays` -/
+def apiPhases (d : Docs) (kind : Kind) (f : Fmt) (g : G) (ow va : Bool) (kv₀ : KV) : Phases :=
+  let rD := guard d kind f ow kv₀
+  if !isOk rD.val then ⟨rD.ops, [], [], [], false⟩
+  else
+    let P := phases d kind f g false va (run kv₀ rD.ops)
+    ⟨rD.ops ++ P.D, P.W, P.C, P.X, P.committed⟩
+
 /-! ## what a reader makes of a store -/
 
 /-- necessary for `validate_structure` / `read_to_memory` to accept a store of format `f` -/
